@@ -164,28 +164,14 @@ Qed.
 Record wf (st : store) : Prop := {
   wf_ids : NoDup (map e_id (s_edges st));
   wf_next : forall e, In e (s_edges st) -> e_id e < s_next st;
-  wf_acyclic : gacyclic (s_edges st);
-  wf_none : forall e, In e (s_edges st) -> e_down e <> str_none }.
+  wf_acyclic : gacyclic (s_edges st) }.
 
-Lemma parents_none_nil G : (forall e, In e G -> e_down e <> str_none) -> parents G str_none = [].
+(* the model's visits is the generic one *)
+Lemma visits_generic G : forall f x, visits G f x = gvisits G f x.
 Proof.
-  unfold parents. induction G as [|g G IHG]; intros Hn; [reflexivity|]. cbn [filter].
-  destruct (bytes_eqb (e_down g) str_none) eqn:Eg.
-  - exfalso. apply bytes_eqb_eq in Eg. apply (Hn g); [left; reflexivity|exact Eg].
-  - apply IHG. intros e' He'. apply Hn. right. exact He'.
-Qed.
-
-(* the model's visits (which stops at the "none" sentinel) is the generic one *)
-Lemma visits_generic G : (forall e, In e G -> e_down e <> str_none) ->
-  forall f x, visits G f x = gvisits G f x.
-Proof.
-  intros Hn. induction f as [|f IH]; intros x; [reflexivity|].
+  induction f as [|f IH]; intros x; [reflexivity|].
   cbn [visits GraphCount.visits]. rewrite parents_eq.
-  apply flat_map_ext. intros e. f_equal.
-  destruct (bytes_eqb (e_up e) str_none) eqn:E; [|apply IH].
-  apply bytes_eqb_eq in E. rewrite E.
-  destruct f as [|f]; [reflexivity|]. cbn [GraphCount.visits].
-  rewrite <- parents_eq, (parents_none_nil G Hn). reflexivity.
+  apply flat_map_ext. intros e. f_equal. apply IH.
 Qed.
 
 Lemma fuel_ok st x : wf st ->
@@ -286,7 +272,6 @@ Proof.
   - rewrite map_id_sp by exact H. exact (wf_ids _ W).
   - intros e' He'. apply in_map_iff in He' as (e & <- & He). destruct (H e He) as (-> & _). apply (wf_next _ W). exact He.
   - apply acyclic_sp; [exact H|exact (wf_acyclic _ W)].
-  - intros e' He'. apply in_map_iff in He' as (e & <- & He). destruct (H e He) as (_ & _ & ->). apply (wf_none _ W). exact He.
 Qed.
 
 (* ---------- node point writes ---------- *)
@@ -323,7 +308,7 @@ Proof.
                       | None => 0 end).
   apply (inv_realised ns' G (toggle V d) L' (fun i => N.lxor (Hf G i) (GraphCount.tog d (GraphCount.par V i)))).
   - apply sp_toggle.
-  - unfold V. rewrite (visits_generic G (wf_none _ W)).
+  - unfold V. rewrite (visits_generic G).
     apply (GraphCount.node_update_preserves_inv bytes bytes_eqb bytes_eqb_eq edge e_id e_up e_down G (wf_ids _ W)
              (Lf (s_nodes st) G) L' (Hf G) (fuel_of G) id d).
     + apply (proj1 (Inv_gInv st (wf_ids _ W))). exact HI.
@@ -358,22 +343,11 @@ Qed.
 Lemma eid_inj G e1 e2 : NoDup (map e_id G) -> In e1 G -> In e2 G -> e_id e1 = e_id e2 -> e1 = e2.
 Proof. intros ND. apply (GraphCount.eid_inj edge e_id G ND). Qed.
 
-Lemma visits_none G f : (forall e, In e G -> e_down e <> str_none) -> gvisits G f str_none = [].
-Proof.
-  intros Hn. destruct f as [|f]; [reflexivity|]. cbn [GraphCount.visits].
-  rewrite <- parents_eq, (parents_none_nil G Hn). reflexivity.
-Qed.
-
 (* the list of toggled ids of updateEdgeHash, in terms of the generic visits *)
 Lemma edge_vs_generic G eid parent :
-  (forall e, In e G -> e_down e <> str_none) ->
-  eid :: (if bytes_eqb parent str_none then [] else visits G (fuel_of G) parent) =
+  eid :: visits G (fuel_of G) parent =
   eid :: gvisits G (fuel_of G) parent.
-Proof.
-  intros Hn. f_equal. destruct (bytes_eqb parent str_none) eqn:E.
-  - apply bytes_eqb_eq in E. subst. symmetry. apply visits_none. exact Hn.
-  - apply visits_generic. exact Hn.
-Qed.
+Proof. f_equal. apply visits_generic. Qed.
 
 Definition with_pts (e : edge) (rows : list point) : edge :=
   mkEdge (e_id e) (e_up e) (e_down e) (e_type e) rows (e_hash e).
@@ -392,12 +366,10 @@ Proof.
   assert (Hsp1 : sp G setter).
   { intros x Hx. unfold setter. destruct (e_id x =? e_id e') eqn:E; [|auto].
     apply N.eqb_eq in E. assert (x = e) by (apply (eid_inj G); auto using (wf_ids _ W)). subst x. cbn. auto. }
-  assert (Hn1 : forall x, In x (map setter G) -> e_down x <> str_none).
-  { intros x Hx. apply in_map_iff in Hx as (y & <- & Hy). destruct (Hsp1 y Hy) as (_ & _ & ->). apply (wf_none _ W). exact Hy. }
   unfold update_edge_hash. rewrite Hset.
   assert (Hfuel : fuel_of (map setter G) = fuel_of G) by (unfold fuel_of; rewrite map_length; reflexivity).
-  rewrite (edge_vs_generic (map setter G) (e_id e) (e_up e) Hn1).
-  rewrite <- (visits_generic (map setter G) Hn1), (visits_sp setter G Hsp1), Hfuel, (visits_generic G (wf_none _ W)).
+  rewrite (edge_vs_generic (map setter G) (e_id e) (e_up e)).
+  rewrite <- (visits_generic (map setter G)), (visits_sp setter G Hsp1), Hfuel, (visits_generic G).
   set (V := e_id e :: gvisits G (fuel_of G) (e_up e)).
   rewrite map_map.
   set (g := fun x => toggle V d (setter x)).
@@ -489,7 +461,7 @@ Qed.
 
 Theorem edge_points_new_inv st node parent nt rows :
   wf st -> Inv st ->
-  node <> parent -> node <> str_none ->
+  node <> parent ->
   find_edge (s_edges st) parent node = None ->
   is_upstream (s_edges st) (fuel_of (s_edges st)) node parent = false ->
   let G := s_edges st in
@@ -500,7 +472,7 @@ Theorem edge_points_new_inv st node parent nt rows :
   let st' := mkStore (s_nodes st) (update_edge_hash (G ++ [e]) (e_id e) parent d) root' (s_next st + 1) in
   wf st' /\ Inv st'.
 Proof.
-  intros W HI Hself Hnone Hfind Hup. cbv zeta. intros root'.
+  intros W HI Hself Hfind Hup. cbv zeta. intros root'.
   set (G := s_edges st). set (e := mkEdge (s_next st) parent node nt rows 0).
   set (d := N.lxor (N.lxor (xor_crcs rows) (xor_crcs (node_rows (s_nodes st) node)))
                    (fold_left (fun a c => N.lxor a (e_hash c)) (childs G node) 0)).
@@ -515,8 +487,6 @@ Proof.
   { apply (GraphWalk.add_edge_acyclic bytes edge e_id e_up e_down G e Hfresh (wf_acyclic _ W)).
     - cbn. exact Hself.
     - cbn [e_up e_down e]. apply not_upstream_no_walk; [exact (wf_ids _ W)|exact (wf_acyclic _ W)|exact Hup]. }
-  assert (Hn1 : forall x, In x G1 -> e_down x <> str_none).
-  { intros x Hx. apply in_app_or in Hx as [Hx|[<-|[]]]; [apply (wf_none _ W); exact Hx|exact Hnone]. }
   assert (W1 : wf (mkStore (s_nodes st) G1 root' (s_next st + 1))).
   { constructor; cbn [s_edges s_next]; auto.
     intros x Hx. apply in_app_or in Hx as [Hx|[<-|[]]]; [pose proof (wf_next _ W x Hx); lia|cbn; lia]. }
@@ -539,7 +509,7 @@ Proof.
       { destruct (bytes_eqb parent node) eqn:E; [|reflexivity]. apply bytes_eqb_eq in E. congruence. }
       cbn [GraphCount.xorl]. xor_ac. }
   unfold update_edge_hash. fold G1.
-  rewrite (edge_vs_generic G1 (e_id e) parent Hn1).
+  rewrite (edge_vs_generic G1 (e_id e) parent).
   set (V := e_id e :: gvisits G1 (fuel_of G1) parent).
   split; [apply (wf_sp (mkStore (s_nodes st) G1 root' (s_next st + 1)) (toggle V d) (s_nodes st) root' (sp_toggle _ _ _) W1)|].
   intros x' Hx'. cbn [s_edges s_nodes] in *.
